@@ -155,5 +155,25 @@ pub fn run(out: &mut Out, tier: &str, seed: u64, corpus: Option<&str>) {
             bytes_equal(out, fi, q, d, w, h, rng.below(12) as usize, &mut rng);
         }
     }
+    // large surfaces (more than 4 MiB of encoded data, fragment counts that are not round): release build only
+    if !cfg!(debug_assertions) {
+        ORDER_MODE.store(0, Ordering::SeqCst);
+        let big: &[(&str, u32, u32)] = if thorough { &[("BC2_UNORM", 1024, 4100), ("BC4_UNORM", 2048, 4108), ("BC1_UNORM", 4096, 2052), ("BC5_UNORM", 1000, 4300)] } else { &[("BC2_UNORM", 1024, 4100)] };
+        for (name, w, h) in big {
+            let fi = FORMATS.iter().position(|(_, n)| n == name).unwrap();
+            let data: Vec<u8> = (0..(*w as usize * *h as usize)).map(|i| (i as u32).wrapping_mul(2654435761) as u8 >> 2).collect();
+            let view = ImageView::new(&data, Size::new(*w, *h), ColorFormat::GRAYSCALE_U8).unwrap();
+            let mut o = EncodeOptions::default();
+            o.quality = CompressionQuality::Fast;
+            o.parallel = false;
+            let mut seq = Vec::new();
+            encode(&mut seq, view, FORMATS[fi].0, None, &o).unwrap();
+            o.parallel = true;
+            let mut par = Vec::new();
+            let r = encode(&mut par, view, FORMATS[fi].0, None, &o);
+            if r.is_err() || par != seq { println!("IMPL-VIOLATION parallel bytes differ from sequential on a large surface: {name} {w}x{h} (lengths {} vs {})", par.len(), seq.len()); }
+            out.count("bytes_large_surfaces");
+        }
+    }
     dds::verif_hooks::set_fragment_hook(None);
 }
